@@ -93,7 +93,12 @@ func BenchLine(t *rapid.T) string {
 		return "Benchmark" + name + " 10" // no measurements
 	}
 	var sb strings.Builder
-	sb.WriteString("Benchmark" + name + sep(t) + strconv.Itoa(rapid.IntRange(0, 100000).Draw(t, "iters")))
+	iters := strconv.Itoa(rapid.IntRange(0, 100000).Draw(t, "iters"))
+	if vcase.OneIn(t, 12, "longiters") {
+		// counts of 19 and more characters leave the integer parser's fast path
+		iters = pick(t, []string{"0000000000000000000100", "1000000000000000000", "9223372036854775807", "9223372036854775808", "0000000000000000000", "000000000000000000000000000000007", "1_000_000_000_000_000_000", "00000000000000000001e3", "999999999999999999", "+000000000000000000012"}, "longit")
+	}
+	sb.WriteString("Benchmark" + name + sep(t) + iters)
 	nm := rapid.IntRange(1, 4).Draw(t, "nmeas")
 	if vcase.OneIn(t, 30, "manymeas") {
 		nm = rapid.IntRange(30, 80).Draw(t, "nmeasbig")
